@@ -1,3 +1,4 @@
 import EqsigVerif.Lemmas.Im.Velo
 import EqsigVerif.Lemmas.Im.Series
+import EqsigVerif.Lemmas.Im.Dur
 /-! # Lemmas for `Model/Im.lean` (C08, C09, C10): umbrella module -/
